@@ -117,6 +117,9 @@ enum Step {
     Restart,
     Backdate,
     Remember { name: usize, spec: Spec },
+    /// STOREs on `ctx` until its shard's memtable rotates, the flush parked between "files written"
+    /// and "passive buffer released"; REMEMBER in that window (it sends no barrier); flush released
+    RememberInWindow { name: usize, spec: Spec, ctx: usize, x: u64, ts: u64, ms: u64 },
     /// SHOW (+ QUERY); `twice`: SHOW again; `barrier`: the harness waits for flushes itself first
     Show { name: usize, twice: bool, barrier: bool },
     Query { spec: Spec },
@@ -136,6 +139,8 @@ struct Mat {
     stored_above_mark: BTreeSet<u64>,
     /// key -> (mark when the event was applied, number of frames then); only events applied after REMEMBER
     late: BTreeMap<u64, (Option<(u64, u64)>, usize)>,
+    /// keys that sat in a passive buffer with readable segment files when REMEMBER ran
+    window_keys: BTreeSet<u64>,
 }
 
 struct World {
@@ -145,7 +150,7 @@ struct World {
     ctxs: Vec<(String, usize)>, // (context name, shard)
     evs: BTreeMap<u64, EvRec>,
     next_key: u64,
-    mem_count: Vec<usize>,
+    mem_keys: Vec<Vec<u64>>,
     mats: BTreeMap<usize, Mat>,
     toks: Vec<Tok>,
     obs: Vec<String>,
@@ -233,7 +238,7 @@ impl World {
             ctxs,
             evs: BTreeMap::new(),
             next_key: 1,
-            mem_count: vec![0; cfg.shards],
+            mem_keys: vec![vec![]; cfg.shards],
             mats: BTreeMap::new(),
             toks: vec![],
             obs: vec![],
@@ -265,13 +270,24 @@ impl World {
         self.evs.get(&k).and_then(|e| e.id.map(|id| (e.ts, id)))
     }
     fn flush_tok(&mut self, shard: usize) {
-        if self.mem_count[shard] > 0 {
+        if !self.mem_keys[shard].is_empty() {
             self.toks.push(Tok::Raw(format!("F {shard}")));
-            self.mem_count[shard] = 0;
+            self.mem_keys[shard].clear();
         }
     }
 
     fn exec(&mut self, step: &Step) {
+        self.tally(match step {
+            Step::Store { .. } => "op:store",
+            Step::Flush => "op:flush",
+            Step::Compact(_) => "op:compact",
+            Step::Restart => "op:restart",
+            Step::Backdate => "op:backdate",
+            Step::Remember { .. } => "op:remember",
+            Step::RememberInWindow { .. } => "op:remember_in_window",
+            Step::Show { .. } => "op:show",
+            Step::Query { .. } => "op:query",
+        });
         match step {
             Step::Store { ctx, x, ts, ms, nosync } => {
                 let key = self.next_key;
@@ -294,8 +310,8 @@ impl World {
                     m.late.insert(key, (m.mark, m.frames.len()));
                 }
                 self.toks.push(Tok::E(key));
-                self.mem_count[shard] += 1;
-                if self.mem_count[shard] >= self.cfg.capacity() {
+                self.mem_keys[shard].push(key);
+                if self.mem_keys[shard].len() >= self.cfg.capacity() {
                     self.flush_tok(shard);
                     self.tally("auto_flush");
                 }
@@ -341,45 +357,42 @@ impl World {
             }
             Step::Remember { name, spec } => {
                 self.await_flush();
-                let mname = format!("m{name}");
-                let before = self.mats.get(name).map(|m| (m.frames.clone(), m.mark));
-                let r = self.s.cmd(&format!("REMEMBER {} AS {mname}", spec.text(&self.ctxs))).expect("child died");
-                let line;
-                let mut frs = String::from("-");
-                if r.ok() {
-                    let (frames, mark) = read_materialization(&self.root, &mname).expect("read materialization");
-                    frs = frames_str(&frames);
-                    line = format!("rem:ok mark={}", mark_str(mark));
-                    self.checks += 1;
-                    if before.is_some() {
-                        self.fails.push(("-".into(), format!("REMEMBER under existing name {mname} succeeded")));
+                self.remember(*name, spec, &BTreeSet::new());
+            }
+            Step::RememberInWindow { name, spec, ctx, x, ts, ms } => {
+                self.await_flush();
+                let (cname, shard) = self.ctxs[*ctx].clone();
+                self.s.ctl(json!({"ctl":"arm_park","point":"flush.written"}));
+                let mut n = 0u64;
+                loop {
+                    let key = self.next_key;
+                    self.next_key += 1;
+                    self.s.ctl(json!({"ctl":"store_now","secs": BASE_TS + ts}));
+                    self.s.ctl(json!({"ctl":"id_clock","readings":[BASE_MS + ms + n]}));
+                    n += 1;
+                    let r = self.s.cmd(&format!("STORE ev FOR {cname} PAYLOAD {{\"k\":{key},\"x\":{x}}}"));
+                    assert!(r.map(|r| r.ok()).unwrap_or(false), "STORE failed");
+                    self.evs.insert(key, EvRec { key, ts: BASE_TS + ts, ctx: *ctx, shard, x: *x, id: None });
+                    for m in self.mats.values_mut() {
+                        m.late.insert(key, (m.mark, m.frames.len()));
                     }
-                    // oracle: the stored rows are the live selection
-                    let want: Vec<u64> = self.evs.values().filter(|e| spec.matches(e)).map(|e| e.key).collect();
-                    let got: Vec<u64> = frames.iter().flatten().copied().collect();
-                    if keys_str(&want) != keys_str(&got) {
-                        self.fails.push(("-".into(), format!("REMEMBER {mname} stored {} but the selection is {}", keys_str(&got), keys_str(&want))));
+                    self.toks.push(Tok::E(key));
+                    self.mem_keys[shard].push(key);
+                    if self.mem_keys[shard].len() >= self.cfg.capacity() {
+                        break;
                     }
-                    self.mats.insert(*name, Mat { spec: spec.clone(), frames, mark, stored_above_mark: BTreeSet::new(), late: BTreeMap::new() });
-                } else if r.message.contains("already exists") {
-                    line = "rem:dup".to_string();
-                    self.checks += 1;
-                    self.tally("remember_duplicate");
-                    match before {
-                        None => self.fails.push(("-".into(), format!("REMEMBER {mname} rejected as duplicate but the name is new"))),
-                        Some((f, m)) => {
-                            let (frames, mark) = read_materialization(&self.root, &mname).expect("read materialization");
-                            if frames != f || mark != m {
-                                self.fails.push(("-".into(), format!("rejected REMEMBER {mname} changed the stored materialisation")));
-                            }
-                        }
-                    }
-                } else {
-                    line = format!("rem:err {}", r.status_class());
-                    self.fails.push(("-".into(), format!("REMEMBER {mname} failed: {}", r.message)));
+                    self.await_flush(); // nothing in flight yet: only the mailbox barrier
                 }
-                self.toks.push(Tok::Raw(format!("REM {name} {} {} {frs}", spec.toks(), 1)));
-                self.obs.push(line);
+                let v = self.s.ctl(json!({"ctl":"wait_parked","point":"flush.written","ms":5000}));
+                assert!(v.map(|v| v["parked"].as_u64().unwrap_or(0) > 0).unwrap_or(false), "flush did not park");
+                let window: BTreeSet<u64> = self.mem_keys[shard].iter().copied().collect();
+                self.mem_keys[shard].clear();
+                self.toks.push(Tok::Raw(format!("FB {shard}")));
+                self.tally("remember_in_flush_window");
+                self.remember_nowait(*name, spec, &window);
+                self.s.ctl(json!({"ctl":"release_all"}));
+                self.await_flush();
+                self.toks.push(Tok::Raw("FE".into()));
                 self.note_marks(*name);
             }
             Step::Show { name, twice, barrier } => {
@@ -401,8 +414,20 @@ impl World {
                     if let (Some(a), Some(b)) = (&first, &second) {
                         self.checks += 1;
                         if a != b {
-                            // explained only if the first SHOW left a mark below a stored row
-                            let explained = self.mats.get(name).map(|m| !m.stored_above_mark.is_empty()).unwrap_or(false);
+                            // explained only if the second SHOW merely repeats rows that were stored
+                            // above the mark the first one left (and loses none)
+                            let mut cnt: BTreeMap<u64, i64> = BTreeMap::new();
+                            for k in b {
+                                *cnt.entry(*k).or_insert(0) += 1;
+                            }
+                            for k in a {
+                                *cnt.entry(*k).or_insert(0) -= 1;
+                            }
+                            let explained = self
+                                .mats
+                                .get(name)
+                                .map(|m| cnt.iter().all(|(k, c)| *c == 0 || (*c > 0 && m.stored_above_mark.contains(k))))
+                                .unwrap_or(false);
                             let class = if explained { "mark-below-stored-row" } else { "-" };
                             self.fails.push((class.into(), format!("SHOW m{name} repeated without new data: {} then {}", keys_str(a), keys_str(b))));
                         } else {
@@ -415,6 +440,67 @@ impl World {
                 let _ = self.query(spec);
             }
         }
+    }
+
+    fn remember(&mut self, name: usize, spec: &Spec, window: &BTreeSet<u64>) {
+        self.remember_nowait(name, spec, window)
+    }
+
+    /// REMEMBER; `window`: keys that are readable twice right now (flush window)
+    fn remember_nowait(&mut self, name: usize, spec: &Spec, window: &BTreeSet<u64>) {
+                let mname = format!("m{name}");
+                let before = self.mats.get(&name).map(|m| (m.frames.clone(), m.mark));
+                let r = self.s.cmd(&format!("REMEMBER {} AS {mname}", spec.text(&self.ctxs))).expect("child died");
+                let line;
+                let mut frs = String::from("-");
+                if r.ok() {
+                    let (frames, mark) = read_materialization(&self.root, &mname).expect("read materialization");
+                    frs = frames_str(&frames);
+                    line = format!("rem:ok mark={}", mark_str(mark));
+                    self.checks += 1;
+                    if before.is_some() {
+                        self.fails.push(("-".into(), format!("REMEMBER under existing name {mname} succeeded")));
+                    }
+                    // oracle: the stored rows are the live selection
+                    let want: Vec<u64> = self.evs.values().filter(|e| spec.matches(e)).map(|e| e.key).collect();
+                    let got: Vec<u64> = frames.iter().flatten().copied().collect();
+                    if keys_str(&want) != keys_str(&got) {
+                        // explained only if REMEMBER ran in a flush window and the surplus is one extra
+                        // copy of rows that were readable twice
+                        let mut cnt: BTreeMap<u64, i64> = BTreeMap::new();
+                        for k in &got {
+                            *cnt.entry(*k).or_insert(0) += 1;
+                        }
+                        for k in &want {
+                            *cnt.entry(*k).or_insert(0) -= 1;
+                        }
+                        let explained = cnt.iter().all(|(k, c)| *c == 0 || (*c == 1 && window.contains(k)));
+                        let class = if explained { "remember-in-flush-window" } else { "-" };
+                        self.fails.push((class.into(), format!("REMEMBER {mname} stored {} but the selection is {}", keys_str(&got), keys_str(&want))));
+                    }
+                    self.mats.insert(name, Mat { spec: spec.clone(), frames, mark, stored_above_mark: BTreeSet::new(), late: BTreeMap::new(), window_keys: window.clone() });
+                } else if r.message.contains("already exists") {
+                    line = "rem:dup".to_string();
+                    self.checks += 1;
+                    self.tally("remember_duplicate");
+                    match before {
+                        None => self.fails.push(("-".into(), format!("REMEMBER {mname} rejected as duplicate but the name is new"))),
+                        Some((f, m)) => {
+                            let (frames, mark) = read_materialization(&self.root, &mname).expect("read materialization");
+                            if frames != f || mark != m {
+                                self.fails.push(("-".into(), format!("rejected REMEMBER {mname} changed the stored materialisation")));
+                            }
+                        }
+                    }
+                } else {
+                    line = format!("rem:err {}", r.status_class());
+                    self.fails.push(("-".into(), format!("REMEMBER {mname} failed: {}", r.message)));
+                }
+                self.toks.push(Tok::Raw(format!("REM {name} {} {} {frs}", spec.toks(), 1)));
+                self.obs.push(line);
+                if window.is_empty() {
+                    self.note_marks(name);
+                }
     }
 
     /// after REMEMBER / SHOW: which stored rows are above the mark that was left?
@@ -520,7 +606,13 @@ impl World {
         let mut classes: BTreeSet<String> = BTreeSet::new();
         for k in &extra {
             // shown more often than applied: explained iff the row was stored while above a mark
-            classes.insert(if m.stored_above_mark.contains(k) { "mark-below-stored-row".into() } else { "-".into() });
+            classes.insert(if m.window_keys.contains(k) {
+                "remember-in-flush-window".into()
+            } else if m.stored_above_mark.contains(k) {
+                "mark-below-stored-row".into()
+            } else {
+                "-".into()
+            });
         }
         for k in &missing {
             // never shown: explained iff it was applied after a mark it is not above
@@ -694,7 +786,14 @@ fn gen_history(r: &mut Rng, cfg: &SysCfg, nctx_per_shard: usize) -> Vec<Step> {
         }
     }
     let nmats = 1 + r.below(2) as usize;
-    steps.push(Step::Remember { name: 0, spec: gen_spec(r, nctx, clk.ts) });
+    if r.chance(1, 8) {
+        let ctx = r.below(nctx as u64) as usize;
+        clk.ms += 10;
+        steps.push(Step::RememberInWindow { name: 0, spec: gen_spec(r, nctx, clk.ts), ctx, x: r.below(3), ts: clk.ts, ms: clk.ms });
+        clk.ms += 10;
+    } else {
+        steps.push(Step::Remember { name: 0, spec: gen_spec(r, nctx, clk.ts) });
+    }
     let rounds = 2 + r.below(4);
     for round in 0..rounds {
         for _ in 0..r.below(4) {
@@ -747,6 +846,13 @@ fn fix_restart_clock(steps: &mut [Step]) {
                     floor += 1;
                 }
                 maxms = maxms.max(*ms);
+            }
+            Step::RememberInWindow { ms, .. } => {
+                if *ms < floor {
+                    *ms = floor;
+                }
+                maxms = maxms.max(*ms + 8);
+                floor = floor.max(*ms + 8);
             }
             _ => {}
         }
@@ -867,6 +973,15 @@ fn witnesses() -> Vec<(&'static str, SysCfg, Vec<Step>)> {
                 Step::Show { name: 0, twice: true, barrier: true },
             ],
         ),
+        // REMEMBER while an auto-flush is between "files written" and "passive buffer released"
+        (
+            "remember-in-flush-window",
+            one.clone(),
+            vec![
+                Step::RememberInWindow { name: 0, spec: all.clone(), ctx: 0, x: 1, ts: 3, ms: 10 },
+                Step::Show { name: 0, twice: true, barrier: true },
+            ],
+        ),
         // duplicate name, unknown name
         (
             "names",
@@ -930,6 +1045,58 @@ fn main() {
                     st.tally(&format!("{label}: {}", if classes.is_empty() { "property held".to_string() } else { format!("{classes:?}") }));
                     let _ = rep;
                     n += 1;
+                }
+            }
+        }
+        "tickets" => {
+            // component stream: the real FlushProgress counters under random call sequences
+            // (also out-of-order and repeated completions, which the flush worker never issues)
+            use snel_db::engine::shard::flush_progress::FlushProgress;
+            for i in 0..a.cases {
+                if a.only.is_some_and(|o| o != i) {
+                    continue;
+                }
+                let mut r = Rng::for_case(a.seed, "tickets", i);
+                let p = FlushProgress::new();
+                let n = 1 + r.below(30);
+                let in_order = r.chance(1, 2);
+                let mut next_done = 1u64;
+                let mut handed = 0u64;
+                let (mut ops, mut outs) = (vec![], vec![]);
+                let mut early_open = false;
+                let mut done: BTreeSet<u64> = BTreeSet::new();
+                for _ in 0..n {
+                    if r.chance(1, 2) || handed == 0 {
+                        let id = p.next_id();
+                        handed = id;
+                        ops.push("N".to_string());
+                        outs.push(format!("n{id}:{},{},{}", p.snapshot(), p.completed(), (p.completed() >= p.snapshot()) as u8));
+                    } else {
+                        let id = if in_order {
+                            if next_done > handed { continue }
+                            next_done += 1;
+                            next_done - 1
+                        } else {
+                            r.below(handed + 2)
+                        };
+                        p.mark_completed(id);
+                        done.insert(id);
+                        ops.push(format!("M{id}"));
+                        outs.push(format!("m:{},{},{}", p.snapshot(), p.completed(), (p.completed() >= p.snapshot()) as u8));
+                    }
+                    // oracle: with in-order completion an open barrier means every ticket handed out is done
+                    if p.completed() >= p.snapshot() && (1..=handed).any(|t| !done.contains(&t)) {
+                        early_open = true;
+                    }
+                }
+                st.tally(if in_order { "in_order" } else { "arbitrary_order" });
+                st.tally_n("calls", ops.len() as u64);
+                st.case(&format!("tickets {}", ops.join(" ")), &if outs.is_empty() { "-".to_string() } else { outs.join(" ") }, ops.len() > 2);
+                if in_order && early_open {
+                    st.oracle_fail(i, "-", &format!("barrier open with a pending ticket under in-order completion: {}", ops.join(" ")));
+                } else {
+                    if early_open { st.tally("early_open_out_of_order"); }
+                    st.oracle_ok();
                 }
             }
         }
